@@ -437,6 +437,19 @@ def scenario(arg):
                 vp.rmtree(os.path.join(root, TRIPLE))
             elif pd:
                 vp.rmtree(pdir)
+        # (a2) the invocation directory reached through a symbolic link, with $PWD saying so (what `cd link/dir && cargo libcnb package` gives)
+        via = root + "-via-link"
+        if not os.path.lexists(via):
+            os.symlink(root, via)
+        pdir = os.path.join(root, "packaged")
+        vp.rmtree(pdir)
+        logical = os.path.join(via, pick["dir"])
+        rc, out, err = run_package(cargo_libcnb, root, logical, "dev", None, extra_env={"PWD": logical})
+        sh.evaluations += 1
+        c = dict(case, run={"cwd": pick["dir"], "profile": "dev", "history": "clean", "via": "a symlinked path, PWD set to it"})
+        if not judge_run(ws, root, pick["dir"], "dev", pdir, rc, out, err, sh, c, "packaging from %s reached through a symbolic link (PWD = the logical path)" % pick["dir"]):
+            return sh.dict()
+        sh.nontrivial.add((shape, "clean", "via-symlink", "dev", False))
         # reference: clean tree from the root, dev
         pdir = os.path.join(root, "packaged")
         vp.rmtree(pdir)
@@ -541,6 +554,7 @@ def scenario(arg):
     finally:
         vp.rmtree(root)
         vp.rmtree(root + "-artifacts")
+        vp.rmtree(root + "-via-link")
     return sh.dict()
 
 
